@@ -162,6 +162,7 @@ Fixpoint ren (ix : list (pkind * string * nat)) (t : term) {struct t} : term :=
       else if is_kind "TPath" l then
         match ks' with
         | [q'; Node lp (Node ls sargs :: rest)] =>
+            if is_kind "Path" lp && is_kind "Seg" ls then
             match new_name ix PTy (ld ls) with
             | Some n =>
                 match rest with
@@ -178,11 +179,13 @@ Fixpoint ren (ix : list (pkind * string * nat)) (t : term) {struct t} : term :=
                 | _ => Node l ks'
                 end
             end
+            else Node l ks'
         | _ => Node l ks'
         end
       else if is_kind "EPath" l then
         match ks' with
         | [q'; Node lp (Node ls sargs :: rest)] =>
+            if is_kind "Path" lp && is_kind "Seg" ls then
             match new_name ix PTy (ld ls) with
             | Some n =>
                 match rest with
@@ -195,9 +198,49 @@ Fixpoint ren (ix : list (pkind * string * nat)) (t : term) {struct t} : term :=
                 | None => Node l ks'
                 end
             end
+            else Node l ks'
         | _ => Node l ks'
         end
       else Node l ks'
+  end.
+
+(* specification side: the occurrences the resolver leaves as written (names that are not
+   parameters of the block, as far as the resolver is concerned) *)
+Fixpoint kept (ix : list (pkind * string * nat)) (t : term) {struct t} : list (pkind * string) :=
+  match t with
+  | Node l ks =>
+      let below := flat_map (kept ix) ks in
+      if is_kind "Lifetime" l || is_kind "PredLifetime" l then
+        match new_name ix PLt (ld l) with Some _ => below | None => (PLt, ld l) :: below end
+      else if is_kind "TPath" l then
+        match ks with
+        | [q; p] =>
+            match first_seg p with
+            | Some (n, bare) =>
+                match new_name ix PTy n with
+                | Some _ => below
+                | None =>
+                    if bare then match new_name ix PCt n with Some _ => below | None => (PTy, n) :: below end
+                    else (PTy, n) :: below
+                end
+            | None => below
+            end
+        | _ => below
+        end
+      else if is_kind "EPath" l then
+        match ks with
+        | [q; p] =>
+            match first_seg p with
+            | Some (n, _) =>
+                match new_name ix PTy n, new_name ix PCt n with
+                | None, None => (PTy, n) :: below
+                | _, _ => below
+                end
+            | None => below
+            end
+        | _ => below
+        end
+      else below
   end.
 
 Definition ren_gp (ix : list (pkind * string * nat)) (gp : term) : term :=
@@ -205,6 +248,22 @@ Definition ren_gp (ix : list (pkind * string * nat)) (gp : term) : term :=
   | Node l ks =>
       let n := match gp_decl gp with Some (k, n) => new_name ix k n | None => None end in
       Node (rename_label l n) (map (ren ix) ks)
+  end.
+
+Definition kept_gp (ix : list (pkind * string * nat)) (gp : term) : list (pkind * string) :=
+  match gp_decl gp with
+  | Some (k, n) => match new_name ix k n with Some _ => [] | None => [(k, n)] end
+  | None => []
+  end ++ flat_map (kept ix) (tkids gp).
+
+(* every name of a block that canonicalisation leaves as written: parameters that are never
+   indexed (they keep their names) and names that are not parameters *)
+Definition kept_block (b : term) : list (pkind * string) :=
+  let ix := indexed (index_block b) in
+  match b with
+  | Node _ [Node _ gps; tr; self; wh; items] =>
+      flat_map (kept_gp ix) gps ++ kept ix tr ++ kept ix self ++ kept ix wh ++ kept ix items
+  | _ => []
   end.
 
 (* `resolve_non_predicate_params` *)
